@@ -8,12 +8,16 @@ from ..runner import Outcome
 LEVEL = "proof"
 ASSUMPTIONS = ["edits are the mapping operations set / add / delete (all addressing forms); mutating a stored column object's fields behind the record's back is outside the property"]
 NAMES = ["a", "b", "c"]
-IMPL_ONLY = ("restore", "copy", "popitem", "clear", "huge", "warnings-as-errors", "foreign")     # operations the model has no counterpart of (object identity, resource limits)
+IMPL_ONLY = ("restore", "copy", "huge", "warnings-as-errors", "foreign")     # operations the model has no counterpart of (object identity, resource limits)
 
 
 def gen_op(rng, names=NAMES, idxs=(0, 1, 2, 3, 5, -1, None, None, None)):
     k = rng.random()
     name = rng.choice(names)
+    if k > 0.94:
+        # the deletions the mapping interface adds on top of `del` (inherited from MutableMapping; modelled as Record.popItem /
+        # Record.clear): popitem() takes the first position, clear() repeats it until KeyError
+        return {"k": rng.choice(["popitem", "popitem", "clear"])}
     if k < 0.6:
         idx = rng.choice(idxs)
         form = rng.choice(["name", "name", "int", "col", "add", "add"])
@@ -121,6 +125,7 @@ def all_ops_small():
         ops.append({"k": "del", "key": {"t": "name", "v": n}})
     for ki in (0, 1, 2):
         ops.append({"k": "del", "key": {"t": "int", "v": ki}})
+    ops += [{"k": "popitem"}, {"k": "clear"}]
     return ops
 
 
@@ -407,7 +412,7 @@ def run(ctx):
                 "a second family stores (and addresses by) columns of every column class of maflib.column_types with every value shape - None, '', 0, False, 0.0, [], (), each class's "
                 "build('') null value, and ordinary values - and uses the empty column name; a third family starts from a record parsed from a line (plain column names with empty / short fields, "
                 "or the basic layout with some list / nullable columns empty) instead of an empty record; "
-                "thorough adds all histories of length <= 3 over a 44-op alphabet; non-trivial = history with >= 2 successful ops; distinct histories")
+                "thorough adds all histories of length <= 3 over a 46-op alphabet (popitem() and clear() included); non-trivial = history with >= 2 successful ops; distinct histories")
     rng = ctx.rng("hist")
     hists = []
     for _ in range(ctx.scale(1500, 20000)):
